@@ -12,8 +12,9 @@ Family(c) == CASE c \in {"v2c:a", "v2c:b"} -> "v2c" [] c = "v1:a" -> "v1" [] OTH
 \* client back into the state it had on entering - a client that needed no discovery then needs none now.
 Apply(c, kv) == [timeout |-> IF Has(kv, "timeout") THEN kv.timeout ELSE c.timeout,
                  retries |-> IF Has(kv, "retries") THEN kv.retries ELSE c.retries,
-                 creds |-> IF Has(kv, "creds") THEN kv.creds ELSE c.creds]
-St0 == [cfg |-> [timeout |-> 6, retries |-> 10, creds |-> "v2c:a"], stack |-> <<>>, lastOp |-> "init", known |-> FALSE, kstack |-> <<>>]
+                 creds |-> IF Has(kv, "creds") THEN kv.creds ELSE c.creds,
+                 ctx |-> IF Has(kv, "ctx") THEN kv.ctx ELSE c.ctx]       \* SNMPv3 context "engine/name" ("" engine = the discovered engine id)
+St0 == [cfg |-> [timeout |-> 6, retries |-> 10, creds |-> "v2c:a", ctx |-> "/"], stack |-> <<>>, lastOp |-> "init", known |-> FALSE, kstack |-> <<>>]
 Blame(s) == CASE s.lastOp \in {"exit"} -> "not_restored"
               [] s.lastOp = "enter" -> "override_not_applied"
               [] s.lastOp \in {"configure_unknown", "enter_unknown"} -> "unknown_setting_changed_state"
@@ -35,6 +36,7 @@ On(s, e) ==
                     <<Blame(s) \o ":timeout", e.timeout = s.cfg.timeout>>,
                     <<Blame(s) \o ":retries", e.retries = s.cfg.retries>>,
                     <<Blame(s) \o ":credentials", e.ident = s.cfg.creds>>,
+                    <<Blame(s) \o ":context", Family(s.cfg.creds) # "v3" \/ ~Has(e, "ctx") \/ e.ctx = s.cfg.ctx>>,
                     \* every datagram of the request - the v3 discovery probe included - reaches the transport with the settings in force
                     <<Blame(s) \o ":transport_of_discovery", \A i \in DOMAIN e.wire : e.wire[i] = <<s.cfg.timeout, s.cfg.retries>> >>,
                     <<"version_not_switched", e.version = Family(s.cfg.creds)>> >>]
